@@ -58,4 +58,10 @@ theorem nested_errors_propagate :
 /-- `yardl validate` reports the same validation error (exit status from the same `err`). -/
 theorem validate_command_uses_validatePackage : "validatePackage" ∈ calls_validateImpl.map (·.1) := by decide
 
+/-- the generators run after validation, one after the other, each writing its files as it goes: a generator that rejected a model for a reason of
+    its own would leave the output of the generators before it modified although the command fails. Over the sites regenerated from the current
+    source: no generator package constructs an error (what they return are the I/O errors of the calls they make). -/
+theorem generators_only_fail_on_io : generatorErrorSites = [] := by decide
+
+
 end Yardl.C11
